@@ -1,7 +1,8 @@
 """C09 — PD is a square-law detector with unit DC gain and the documented noise powers."""
 ID = 'C09'
 FUNCTIONS = [('devices', 'PD'), ('devices', 'LPF'), ('typing', 'electrical_signal.abs'), ('typing', 'electrical_signal.power')]
-BOUNDS = {'records': '17 (quick) / 20 (thorough) symbolic complex samples per polarisation (17 is the shortest record the 4th-order filter accepts), one and two polarisations, '
+BOUNDS = {'call-history differential': 'for the blocks of this property registered in vf/history.py (concrete orders / bandwidths / gains / gv configurations, symbolic samples): the call repeated in a session that first ran it with one parameter or one gv setting changed equals the call in a fresh library instance',
+          'records': '17 (quick) / 20 (thorough) symbolic complex samples per polarisation (17 is the shortest record the 4th-order filter accepts), one and two polarisations, '
                      'with and without optical noise',
           'parameters': 'r in (0,1], T >= 0, R_load > 0, i_dark >= 0, Fn >= 0 symbolic; BW/fs in {0.25} (quick) / {0.1, 0.25, 0.4} (thorough): '
                         'concrete Bessel design, filter matrix from the real scipy',
@@ -243,4 +244,6 @@ def configs(tier):
         out.append((f'noise-case-{case}', scen_noise, dict(L=L, pol=1, noise=True, ratio=0.25, sel=sel, case=case), {'validate': 1}))
     for kind in ('r', 'T', 'R_load', 'types'):
         out.append((f'validation-{kind}', scen_validation, dict(kind=kind), {}))
+    from vf import history as _history        # call-history differential of this property's blocks (vf/history.py)
+    out += _history.configs_for('C09')
     return out
